@@ -237,7 +237,7 @@ func FuzzC08Accept(f *testing.F) {
 // soups: every bracket kind, a callable name, a separator, operators of two
 // kinds, keywords that end or continue productions.
 var soupSmall = []string{"a", "f", "(", ")", "[", "]", ",", "+"}
-var soupLarge = []string{"a", "f", "(", ")", "[", "]", ",", "+", "by", "=", "in", "1", "asc", "`q i`"}
+var soupLarge = []string{"a", "f", "(", ")", "[", "]", ",", "+", "by", "=", "in", "1", "asc", "`q i`", "1e+"}
 
 // soupContexts are the positions the soup is spliced into.
 var soupContexts = []string{"T | where %s", "T | summarize %s", "T | extend %s", "T | sort by %s", "T | join (U) on %s", "T | top 1 by %s | count", "T | project %s", "let x = %s; T"}
